@@ -135,6 +135,166 @@ theorem no_stuck_state (H : Hash) (cfg : Cfg) (hv : cfg.variant = .fixed) (conns
   simp only [step, hj, hc]
   rfl
 
+/-! ### Progress under EVERY schedule (the ∀-side of `no_stuck_state`)
+
+  `no_stuck_state` exhibits one draining schedule.  The statements below say that no schedule can
+  avoid draining except by not scheduling the threads that are ready:
+  the measure `drainMeasure` (running Serve calls + datagram goroutines that have not finished, the
+  ones that have not yet run their pipeline counted twice) never grows once Shutdown has been
+  requested, every step with a *drain label* (`serveReadErr`, `serveReadFail`, `taskRun`,
+  `taskFinish`) strictly decreases it, and while the server is not drained such a step is enabled. -/
+
+/-- running Serve calls + live datagram goroutines + those that have not yet run their pipeline -/
+def measure (s : St) : Nat := drainMeasure s
+
+theorem measure_eq (s : St) : measure s = countedServes s + liveTasks s + spawnedTasks s := rfl
+
+/-- (a1) Not drained ⇒ some thread can move: in every reachable state in which Shutdown has been
+    requested and `lastActive` is not yet closed, a step with a drain label is enabled and strictly
+    decreases the measure. -/
+theorem progress_enabled (H : Hash) (cfg : Cfg) (hv : cfg.variant = .fixed) (conns : List Nat) (nD : Nat)
+    (ls : List Label) (hsd : (reach H cfg conns nD ls).sd = true) (hnd : (reach H cfg conns nD ls).closes = 0) :
+    ∃ l s', isDrainLabel l = true ∧ step H cfg (reach H cfg conns nD ls) l = some s' ∧
+      measure s' < measure (reach H cfg conns nD ls) := by
+  have hI := InvF_run H cfg hv conns nD ls
+  simp only [reach] at *
+  have hm : countedServes (run H cfg (initWith conns nD) ls) + liveTasks (run H cfg (initWith conns nD) ls) ≠ 0 := by
+    intro h0
+    have := hI.cl2.mpr ⟨hsd, by omega, by omega⟩
+    omega
+  obtain ⟨l, s', hl, hs, _, hlt⟩ := drain_label_enabled (H := H) (cfg := cfg) hI hsd hm
+  exact ⟨l, s', hl, hs, hlt⟩
+
+/-- (a2) No enabled step undoes progress: from a reachable state in which Shutdown has been requested,
+    EVERY enabled step (whatever its label — `serveRecv` is not enabled at all, the conns of the running
+    Serve calls are closed) keeps shutdown requested and does not increase the measure; steps with a
+    drain label decrease it strictly, all other steps (a Serve call arriving late, a handler writing a
+    reply, Shutdown calls entering / returning, a caller's context ending) leave it unchanged. -/
+theorem no_step_increases (H : Hash) (cfg : Cfg) (hv : cfg.variant = .fixed) (conns : List Nat) (nD : Nat)
+    (ls : List Label) (hsd : (reach H cfg conns nD ls).sd = true) (l : Label) (s' : St)
+    (hs : step H cfg (reach H cfg conns nD ls) l = some s') :
+    s'.sd = true ∧ measure s' ≤ measure (reach H cfg conns nD ls) ∧
+    (isDrainLabel l = true → measure s' < measure (reach H cfg conns nD ls)) ∧
+    (isDrainLabel l = false → measure s' = measure (reach H cfg conns nD ls)) ∧
+    (∀ i peer d, l ≠ .serveRecv i peer d) := by
+  have hI := InvF_run H cfg hv conns nD ls
+  simp only [reach] at *
+  obtain ⟨h1, h2, h3, h4⟩ := step_drain_le hI hsd hs
+  refine ⟨h1, h2, h3, h4, ?_⟩
+  rintro i peer d rfl
+  obtain ⟨hrun, hcl, _⟩ := step_serveRecv hs
+  have hlp : (run H cfg (initWith conns nD) ls).listeners.getD ((run H cfg (initWith conns nD) ls).connOf.getD i 0) 0 > 0 := by
+    rw [hI.cnt]; exact runOnL_pos hrun
+  have := (hI.sdc hsd).2 _ hlp
+  omega
+
+/-- (a3) Hence every schedule drains within measure-many drain steps: for EVERY continuation `ls'` of a
+    reachable state in which Shutdown has been requested, the number of enabled drain-labelled steps
+    in `ls'` plus the measure afterwards is at most the measure before; if `ls'` is maximal (no
+    drain-labelled step is enabled at its end) or takes measure-many drain steps, then at its end
+    `lastActive` is closed — everything has returned. -/
+theorem every_schedule_drains (H : Hash) (cfg : Cfg) (hv : cfg.variant = .fixed) (conns : List Nat) (nD : Nat)
+    (ls ls' : List Label) (hsd : (reach H cfg conns nD ls).sd = true) :
+    let s := reach H cfg conns nD ls
+    let s' := reach H cfg conns nD (ls ++ ls')
+    s'.sd = true ∧
+    drainSteps H cfg s ls' + measure s' ≤ measure s ∧
+    ((∀ l, isDrainLabel l = true → step H cfg s' l = none) → s'.closes = 1) ∧
+    (measure s ≤ drainSteps H cfg s ls' → s'.closes = 1) := by
+  have hI := InvF_run H cfg hv conns nD ls
+  have hI' := InvF_run H cfg hv conns nD (ls ++ ls')
+  obtain ⟨h1, h2⟩ := drain_bound H cfg hv ls' _ hI hsd
+  simp only [reach, run_append]
+  refine ⟨h1, h2, ?_, ?_⟩
+  · intro hmax
+    rw [← run_append]
+    by_cases hm : countedServes (run H cfg (initWith conns nD) (ls ++ ls')) +
+        liveTasks (run H cfg (initWith conns nD) (ls ++ ls')) = 0
+    · exact hI'.cl2.mpr ⟨by rw [run_append]; exact h1, by omega, by omega⟩
+    · obtain ⟨l, s'', hl, hs, _⟩ := drain_label_enabled (H := H) (cfg := cfg) hI' (by rw [run_append]; exact h1) hm
+      rw [run_append] at hs
+      rw [hmax l hl] at hs; cases hs
+  · intro hge
+    have h0 : drainMeasure (run H cfg (run H cfg (initWith conns nD) ls) ls') = 0 := by
+      simp only [measure] at hge; omega
+    rw [← run_append] at h0 h1 ⊢
+    simp only [drainMeasure] at h0
+    exact hI'.cl2.mpr ⟨h1, by omega, by omega⟩
+
+/-- (b) Once drained, Shutdown returns: if `lastActive` is closed in a reachable state, then in EVERY
+    continuation it stays closed; every Shutdown call waiting at its `select` can return nil at once;
+    a Shutdown call made later passes the mutex region and then waits with `lastActive` already
+    closed; and a call that was waiting is, in every continuation, still waiting (able to return nil)
+    or has returned — nothing can put it back or disable its return, so none can hang. -/
+theorem drained_shutdown_returns (H : Hash) (cfg : Cfg) (hv : cfg.variant = .fixed) (conns : List Nat) (nD : Nat)
+    (ls ls' : List Label) (hc : (reach H cfg conns nD ls).closes = 1) :
+    let s := reach H cfg conns nD ls
+    let s' := reach H cfg conns nD (ls ++ ls')
+    s'.closes = 1 ∧
+    (∀ (j : Nat) (c : Bool), s'.downs[j]? = some (⟨.waiting, c⟩ : Down) →
+      ∃ s'', step H cfg s' (.downReturnNil j) = some s'' ∧ s''.downs[j]? = some (⟨.returned .nil, c⟩ : Down)) ∧
+    (∀ (j : Nat) (c : Bool), s'.downs[j]? = some (⟨.notStarted, c⟩ : Down) →
+      ∃ s'', step H cfg s' (.downEnter j) = some s'' ∧ s''.downs[j]? = some (⟨.waiting, c⟩ : Down) ∧
+        s''.closes = 1) ∧
+    (∀ (j : Nat) (c : Bool), s.downs[j]? = some (⟨.waiting, c⟩ : Down) →
+      (∃ c', s'.downs[j]? = some (⟨.waiting, c'⟩ : Down)) ∨
+      (∃ r c', s'.downs[j]? = some (⟨.returned r, c'⟩ : Down))) := by
+  have hI := InvF_run H cfg hv conns nD ls
+  have hI' := InvF_run H cfg hv conns nD (ls ++ ls')
+  have hd := Drained_of_closed hI (by unfold reach at hc; omega)
+  have hd' := (Drained_run H cfg ls' _ hd).1
+  obtain ⟨hc1, hc2⟩ := Drained_counts hd'
+  have hcl : (run H cfg (initWith conns nD) (ls ++ ls')).closes = 1 := by
+    rw [run_append]; rw [run_append] at hI'
+    exact hI'.cl2.mpr ⟨hd'.sd, hc1, hc2⟩
+  simp only [reach]
+  refine ⟨hcl, ?_, ?_, ?_⟩
+  · intro j c hj
+    refine ⟨{ run H cfg (initWith conns nD) (ls ++ ls') with
+        downs := (run H cfg (initWith conns nD) (ls ++ ls')).downs.set j ⟨.returned .nil, c⟩,
+        log := (run H cfg (initWith conns nD) (ls ++ ls')).log ++ [.downReturned j .nil] }, ?_, ?_⟩
+    · simp only [step, hj, hcl]; rfl
+    · simp [lt_of_getElem?_eq_some hj]
+  · intro j c hj
+    have hsd : (run H cfg (initWith conns nD) (ls ++ ls')).sd = true := by rw [run_append]; exact hd'.sd
+    refine ⟨{ run H cfg (initWith conns nD) (ls ++ ls') with
+        downs := (run H cfg (initWith conns nD) (ls ++ ls')).downs.set j ⟨.waiting, c⟩ }, ?_, ?_, hcl⟩
+    · simp only [step, hj, hsd, if_true]
+    · simp [lt_of_getElem?_eq_some hj]
+  · intro j c hj
+    rw [run_append]
+    obtain ⟨⟨pc, c'⟩, h1, h2⟩ := run_down_rank H cfg ls' _ j _ hj
+    cases pc with
+    | notStarted => simp [downRank] at h2
+    | waiting => exact Or.inl ⟨c', h1⟩
+    | returned r => exact Or.inr ⟨r, c', h1⟩
+
+/-- Non-vacuity of `progress_enabled` / `no_step_increases` / `every_schedule_drains`: Shutdown has been
+    requested while a Serve call reads, one handler runs and one datagram has not been looked at; the
+    measure is 4 and `lastActive` is open.  Any order of the four drain steps closes it. -/
+example :
+    let s := reach (fun _ => zeros 16) { secretOf := fun _ => .secret [1] } [0] 1
+      [.serveEnter 0, .serveRecv 0 0 ([1, 7, 0, 20] ++ zeros 16), .serveRecv 0 0 ([1, 7, 0, 20] ++ zeros 16),
+       .taskRun 0, .downEnter 0]
+    s.sd = true ∧ s.closes = 0 ∧ measure s = 4 := by
+  simp only [reach, run, step, classify_example]
+  decide
+
+example :
+    let s := reach (fun _ => zeros 16) { secretOf := fun _ => .secret [1] } [0] 1
+      [.serveEnter 0, .serveRecv 0 0 ([1, 7, 0, 20] ++ zeros 16), .serveRecv 0 0 ([1, 7, 0, 20] ++ zeros 16),
+       .taskRun 0, .downEnter 0, .serveReadErr 0, .taskFinish 0, .taskReply 0, .taskRun 1, .taskFinish 1]
+    s.closes = 1 ∧ measure s = 0 := by
+  simp only [reach, run, step, classify_example]
+  decide
+
+/-- Non-vacuity of `drained_shutdown_returns`: drained, one Shutdown waiting, one not yet called. -/
+example :
+    let s := reach (fun _ => []) { secretOf := fun _ => .error } [0] 2
+      [.serveEnter 0, .downEnter 0, .serveReadErr 0]
+    s.closes = 1 ∧ s.downs[0]? = some ⟨.waiting, false⟩ ∧ s.downs[1]? = some ⟨.notStarted, false⟩ := by
+  decide
+
 /-! ### The code as it was (variant `.current`): the window between registration and counting -/
 
 def cfgCurrent : Cfg := { variant := .current, secretOf := fun _ => .error }
